@@ -104,6 +104,8 @@ class SmtLibExecutionCache(object):
 
     def define(self, name: str, parameters: List[FNode], expression: Union[PySMTType, FNode, PartialType, str]):
         self.definitions[name] = (parameters, expression)
+        # the definition replaces what the name meant so far
+        self.keys.pop(name, None)
 
     def _define_adapter(self, formal_parameters: List[FNode], expression: FNode) -> Callable:
         def res(*actual_parameters):
@@ -114,18 +116,16 @@ class SmtLibExecutionCache(object):
 
     def get(self, name: str) -> Any:
         """Returns the last binding for 'name'"""
-        if name in self.definitions:
+        # let, quantifier and parameter bindings (and later declarations)
+        # shadow a definition of the same name
+        if self.keys.get(name):
+            return self.keys[name][-1]
+        elif name in self.definitions:
             (parameters, expression) = self.definitions[name]
             if len(parameters) == 0:
                 return expression
             assert isinstance(expression, FNode)
             return self._define_adapter(parameters, expression)
-        elif name in self.keys:
-            lst = self.keys[name]
-            if len(lst) > 0:
-                return lst[-1]
-            else:
-                return None
         else:
             return None
 
